@@ -190,8 +190,29 @@ def run(ctx):
     tab = tables.str_table(prog, fs)
     lits = sorted(l for l, v, tb, gb in tab)
     # the empty word (doubled or trailing comma) may also be skipped by an is_empty test, in the loop or in a filter closure over the words
-    scope_fs = [fs] + [prog.fns[n] for n in prog.fns if n.startswith(fs.name + "::{closure")]
-    if "" not in lits and any(c and c.endswith("str>::is_empty") for f_ in scope_fs for b, t, c in f_.calls()):
+    # (skipped, not stopped at: `filter(|w| !w.is_empty())` keeps going after an empty word, `take_while` would end the list there)
+    def skips_empty():
+        for b, t, c in fs.calls():
+            if c and re.search(r"Iterator>?::filter$", c):
+                for cl in t["f"].get("closures", []):
+                    g = prog.fns.get(cl[3:] if cl.startswith("fn:") else cl)
+                    if g is None:
+                        continue
+                    e = g.local_expr(0, 8)
+                    if e[0] == "un" and e[1] == "Not" and e[2][0] == "call" and str(e[2][1]).endswith("str>::is_empty"):
+                        return True
+        lps_ = kit.loops(fs)
+        for b, t, c in fs.calls():
+            if c and c.endswith("str>::is_empty") and t.get("t") is not None and fs.term(t["t"])["k"] == "switch":
+                tt = fs.term(t["t"])
+                tg = {v: x for v, x in tt["targets"]}
+                tru = tt["otherwise"] if 0 in tg else tg.get(1)
+                heads = [h for h, (body, l) in lps_.items() if b in body]
+                if tru is not None and heads and any(h in fs.reachable(tru, avoid=kit.error_blocks(fs)) for h in heads) and \
+                        not any(cc and "PartialEq" in cc for bb in fs.reachable(tru, avoid=set(heads)) for cc in [callee_of(fs.term(bb)) if fs.term(bb)["k"] == "call" else None]):
+                    return True          # `if word.is_empty() { continue; }`
+        return False
+    if "" not in lits and skips_empty():
         lits = sorted(lits + [""])
     ctx.instance(1, {"feature words": lits})
     ok = lits == ["", "stack"]
